@@ -152,3 +152,77 @@ class LineBudget (object):
     sys.settrace(None)
     if t is LineBudget.BudgetExceeded: return True
     return False
+
+
+# ---------------------------------------------------------------------------
+# explicit-state breadth-first search over operation histories (replay based)
+# ---------------------------------------------------------------------------
+_EXPAND = {}
+
+def _expand_chunk (args):
+  name, hists = args
+  f = _EXPAND[name]
+  return [(h, f(h)) for h in hists]
+
+
+def bfs (expand, depth, rep, workers=1, seed=0, max_states=None, chunk=64):
+  """expand(history tuple) must rebuild a fresh real system, replay the history and return a dict:
+       key   canonical digestable state after the history (the WHOLE mutable state relevant to the
+             property, so that merged states have the same futures)
+       ops   list of operations enabled in that state (each hashable / repr-able)
+       bad   list of (violation key, what) found in the LAST step (earlier steps were checked
+             when their prefix was expanded)
+       out   an observable summary of the last step (for the distinct-outcome count)
+     States are expanded once; a transition that violates is recorded and not expanded further.
+     Returns the number of distinct states."""
+  from mc.report import digest
+  name = "e%d" % len(_EXPAND)
+  _EXPAND[name] = expand
+  pool = None
+  try:
+    if workers > 1:
+      pool = multiprocessing.get_context("fork").Pool(workers)
+    r0 = expand(())
+    seen = set([digest(r0["key"])])
+    rep.evaluations += 1
+    frontier = [((), r0["ops"])]
+    capped = False
+    for d in range(depth):
+      items = [h + (op,) for h, ops in frontier for op in ops]
+      if not items: break
+      if seed: random.Random(seed + d).shuffle(items)
+      chunks = [items[i:i+chunk] for i in range(0, len(items), chunk)]
+      if pool is not None:
+        res_iter = pool.imap_unordered(_expand_chunk, [(name, c) for c in chunks])
+      else:
+        res_iter = (_expand_chunk((name, c)) for c in chunks)
+      results = []
+      for part in res_iter: results.extend(part)
+      results.sort(key=lambda hr: repr(hr[0]))      # deterministic representative per state
+      nxt = []
+      for h, r in results:
+        rep.evaluations += 1
+        rep.transitions += 1
+        rep.outcome((h[-1], r.get("out")))
+        if r["bad"]:
+          for k, what in r["bad"]:
+            rep.violation(k, what, dict(history=list(h)))
+          continue
+        dg = digest(r["key"])
+        if dg in seen: continue
+        seen.add(dg)
+        if len(seen) % 5000 == 1: rep.sample(dict(history=list(h), observed=r.get("out")))
+        nxt.append((h, r["ops"]))
+        if max_states is not None and len(seen) >= max_states:
+          capped = True; break
+      frontier = nxt
+      if capped:
+        rep.caps.append("state cap %d hit at depth %d" % (max_states, d + 1)); break
+    rep.states |= seen
+    rep.extra["bfs_depth_completed"] = d + 1 if not capped else d
+    rep.extra["frontier_at_bound"] = len(frontier)
+    return len(seen)
+  finally:
+    if pool is not None:
+      pool.terminate(); pool.join()
+    _EXPAND.pop(name, None)
